@@ -163,6 +163,10 @@ def skel_table(skel, name, concrete):
                 out.append('fld|%s|%s' % (f[1], m.group(1) if m else 'BAD:' + f[2]))
         elif k == 'struct' and it['name'] == 'Dynamic' + name:
             out.append('dyn')
+            if it['derives'] != ['Debug'] or it['vis'] != 'pub':
+                out.append('BAD-DYN-STRUCT|%s|%s' % (it['derives'], it['vis']))
+            if not any(x['k'] == 'impl' and x['trait'] == 'Default' and x['self'].startswith('Dynamic' + name) for x in items):
+                out.append('BAD-DYN-NO-DEFAULT-IMPL')
         elif k == 'enum' and it['name'] == name + 'Event':
             pass
         elif k == 'impl':
@@ -172,6 +176,11 @@ def skel_table(skel, name, concrete):
                 if m:
                     out.append('sub|%s|%s' % (it['self'], m.group(1)))
                 continue
+            # every method of the machine, of the event enum and of the dynamic wrapper is part of the public API
+            if re.match(r'^(?:Dynamic)?%s(?:Event)?(?:<.*>)?$' % re.escape(name), it['self']):
+                for f in it['fns']:
+                    if 'name' in f and f['vis'] != 'pub':
+                        out.append('BAD-VIS|%s|%s' % (it['self'], f['name']))
             m = mt.match(it['self'])
             if m and 'S' not in it['generics']:
                 st = m.group(1)
